@@ -1,5 +1,7 @@
 """C06 - the recipe model is referentially consistent.
-Theorems: coq/Properties/C06.v (Inv of Model/Analysis.v preserved by every parser-shaped event).
+Theorems: coq/Properties/C06.v (Inv of Model/AnalysisSpec.v holds initially, is preserved by every event a
+parser-shaped stream can contain, hence recipe_ok of every returned recipe, valid or not; blind indexing; the
+code before the repair c9128f1 is refuted on the streams of ">" and "\\").
 Correspondence L-rec: harness/src/bin/analysis.rs dumps the real PullParser events + the recipe of
 the real CooklangParser::parse; runner/analysis_main.ml runs the extracted model on the dumped
 events and prints the same structural dump.  Monitor: the statement of C06 evaluated in Rust on
@@ -225,6 +227,10 @@ def check_batch(rep, st, cases, bins, runner, label):
             # recipe the parser pipeline returns, and to a mutated stream when it still is a
             # stream the parser could emit (the model's grammar says so).
             applies = m == "-" or (i in model and model[i].get("G") == "1")
+            if f["V"] != "-" and not applies:
+                # a malformed stream (outside the hypothesis of the theorems) on which the monitor fires:
+                # not a violation, but it shows the monitor can fail
+                st["monitor_fired_outside_hypothesis"] += 1
             if f["V"] != "-" and applies:
                 st["monitor_hits"].append((s, "C06 conjunct(s) %s fail on the %s build's recipe" % (f["V"], name),
                                            {"input": s, "input_hex": hx(s), "extensions": e, "converter": c,
@@ -256,6 +262,7 @@ def new_stats():
     return {"cases": 0, "compared": 0, "monitor_hits": [], "disagreements": [], "outcomes": {},
             "parser_panics_debug": 0, "parser_panics_release": 0, "parser_panic_samples": [],
             "mutated": 0, "mutated_collector_panics": 0, "oracle_insane": 0,
+            "monitor_fired_outside_hypothesis": 0,
             "debug_release_diff": 0, "debug_release_samples": [], "samples": []}
 
 
@@ -332,6 +339,7 @@ def run(rep, tier, seed):
         "enumerated": n_enum + len(small),
         "outcomes": st["outcomes"], "mutated_streams": st["mutated"],
         "mutated_collector_panics": st["mutated_collector_panics"],
+        "monitor_fired_on_malformed_streams": st["monitor_fired_outside_hypothesis"],
         "parser_panics": {"debug": st["parser_panics_debug"], "release": st["parser_panics_release"],
                           "samples": st["parser_panic_samples"]},
         "debug_release_differences": st["debug_release_diff"], "debug_release_samples": st["debug_release_samples"],
@@ -343,8 +351,11 @@ def run(rep, tier, seed):
         "oracles shipped with each case (not modelled): unicase folding classes of the component names, serde_yaml "
         "acceptance of the front matter, converter.find_unit, and the split points of find_inline_quantity "
         "(restated in the harness over the public find_unit)",
-        "parser_shaped (the grammar of event sequences) is checked on every stream the real parser produced in "
-        "this run; it is proved of the parser model under C03, not here",
+        "parser_shaped (the grammar of event sequences, Model/Events.v) is the hypothesis of the theorems; it is "
+        "not proved of the parser: it is evaluated (extracted shape_run) on every stream the real PullParser "
+        "produced in this run and a stream outside it is reported as a disagreement",
+        "the theorems are about runs of the collector that return; its panics (asserts, u32 step counter) are "
+        "compared here (model panics <-> implementation panics) and belong to C03",
     ]
 
 
